@@ -129,7 +129,7 @@ def run(spec: KaniSpec, harnesses: list[KaniHarness] | None = None, jobs: int = 
         elif not any(r.status != "undecided" or r.raw for r in res.values()):
             build_error = out[-6000:]
         failed = [h for h in hs if res[h.name].status == "failed"]
-        if playback and failed:
+        if playback and failed and not getattr(spec, "no_playback", False):
             _, out2, _ = invoke(failed, True)
             res2 = parse(out2, failed)
             for h in failed:
@@ -174,9 +174,20 @@ def _native_replay(dst: str, env: dict, spec: KaniSpec, failed: list) -> None:
         return
     env2 = dict(env)
     env2["RUST_BACKTRACE"] = "0"
-    p = subprocess.run(["cargo", "kani", "playback", "-Z", "concrete-playback", "--", "kani_concrete_playback"],
-                       cwd=dst, capture_output=True, text=True, env=env2, timeout=900)
-    out = p.stdout + "\n" + p.stderr
+    # own session + short timeout: a native run has no kani::stub, so a harness that relies on stubs
+    # (e.g. Barrier::wait) may block
+    proc = subprocess.Popen(["cargo", "kani", "playback", "-Z", "concrete-playback", "--", "kani_concrete_playback"],
+                            cwd=dst, stdout=subprocess.PIPE, stderr=subprocess.STDOUT, text=True, env=env2, start_new_session=True)
+    try:
+        out, _ = proc.communicate(timeout=300)
+    except subprocess.TimeoutExpired:
+        import signal
+        try:
+            os.killpg(proc.pid, signal.SIGKILL)
+        except ProcessLookupError:
+            pass
+        out, _ = proc.communicate()
+        out = (out or "") + "\n(native replay timed out after 300 s)"
     for hr in failed:
         tn = names.get(hr.name)
         if not tn:
